@@ -639,6 +639,10 @@ func (e *MetaCDC) getRPCChannelName(channelInfo model.ChannelInfo) string {
 }
 
 func (e *MetaCDC) validCreateRequest(req *request.CreateRequest) error {
+	// the task id becomes a path element of the metadata keys: it must not be a path expression itself
+	if strings.ContainsAny(req.TaskID, "/\\") || req.TaskID == "." || req.TaskID == ".." {
+		return servererror.NewClientError(fmt.Sprintf("the task id should not contain a path separator or be a relative path, %s", req.TaskID))
+	}
 	milvusConnectParam := req.MilvusConnectParam
 	kafkaConnectParam := req.KafkaConnectParam
 	isMilvusEmpty := milvusConnectParam.URI == "" && milvusConnectParam.Host == "" && milvusConnectParam.Port <= 0
